@@ -53,6 +53,23 @@ META = {
              'code: known findings K-C17-1 / K-C17-2. The check evaluates the set equality on the implementation (Allow and '
              'Access-Control-Allow-Methods vs one probe per method) and reports anything outside the two finding classes.',
         design_ref='DESIGN.md section 6, C17', note=NOTE_ROUTING, technique=TECH),
+    'C03': dict(
+        text='Theorems (Coq, no axioms): detectWebService returns a claiming service of maximal score (C03_best_service); a '
+             'literal root token scores strictly higher than a plain variable in the same position (C03_literal_beats_variable); '
+             'a claiming root that extends another scores strictly higher (C03_longer_root_beats_prefix) - for every oracle, '
+             'request and root. The order-independence half is refuted in Coq at full strength (C03_refuted_score_tie, known '
+             'finding K-C03-1, replayed on the real code). Route-level dominance and permutation invariance outside the tie '
+             'class are checked on the implementation (4 permuted builds per table; S.best_match_ok on every invoked route) '
+             'and by model correspondence; their Coq proofs are not done (partial).',
+        design_ref='DESIGN.md section 6, C03', note=NOTE_ROUTING, technique=TECH),
+    'C18': dict(
+        text='The statement at full strength is refuted in Coq with two witnesses that replay on the real code '
+             '(C18_refuted_ranking, C18_refuted_empty_segment: known findings K-C18-1, K-C18-2). The check dispatches every '
+             'generated request of the common fragment on twin containers differing only in the router and reports any '
+             'disagreement outside the two finding classes (class predicates extracted from Coq); both router models are compared '
+             'with the implementation. The positive theorem C18_partial (agreement for clean paths and unambiguous candidates) is '
+             'not proved yet: only the shared detectRoute stage is (C18_shared_stage).',
+        design_ref='DESIGN.md section 6, C18', note=NOTE_ROUTING, technique=TECH),
     'C14': dict(
         text='Theorem Props.C14_curly (Coq, no axioms): under CurlyRouter, for every table, request and path p with a non-slash '
              'byte, routing p and p + "/" gives the same outcome (invoked route, parameter values, error status, Allow list), by '
